@@ -68,7 +68,7 @@ func (E *Engine) havocKeys(st *State, ws *writeSet, resolve func(ssa.Value) (*Te
 		return
 	}
 	tb := E.tb
-	allocPre := E.allocArr(st)
+	clockPre := E.clock(st)
 	var ks []string
 	for k := range ws.keys {
 		ks = append(ks, k)
@@ -84,8 +84,8 @@ func (E *Engine) havocKeys(st *State, ws *writeSet, resolve func(ssa.Value) (*Te
 		nw := tb.Fresh(k, srt)
 		st.heap[k] = nw
 		if k == allocKey {
-			r := tb.BVar("r", SRef)
-			E.addFact(st, tb.Forall([]*Term{r}, tb.Implies(tb.Select(old, r), tb.Select(nw, r))))
+			E.addFact(st, tb.Cmp("<=", old, nw))
+			tb.noSyms[nw] = true
 			continue
 		}
 		if kw.any || !srt.IsArray() {
@@ -110,7 +110,7 @@ func (E *Engine) havocKeys(st *State, ws *writeSet, resolve func(ssa.Value) (*Te
 		r := tb.BVar("r", SRef)
 		var conds []*Term
 		if kw.fresh {
-			conds = append(conds, tb.Select(allocPre, r))
+			conds = append(conds, tb.Cmp("<=", E.birth(r), clockPre))
 		}
 		seen := map[*Term]bool{}
 		for _, b := range bases {
@@ -217,7 +217,7 @@ func (E *Engine) addrWrites(v ssa.Value, tenv TEnv, w *writeSet) {
 		case *types.Pointer:
 			el = types.Unalias(tt.Elem()).Underlying().(*types.Array).Elem()
 		}
-		k, ks := E.arrKey(E.sortOf(el, tenv))
+		k, ks := E.arrKey(el, tenv)
 		E.regKey(w, k, ks).bases[a.X] = true
 		return
 	case *ssa.FieldAddr:
@@ -253,7 +253,7 @@ func (E *Engine) addrWrites(v ssa.Value, tenv TEnv, w *writeSet) {
 		// the base may be an interior pointer into a slice of structs
 		if _, isAlloc := root.(*ssa.Alloc); !isAlloc && si.sort != SUnit {
 			if _, isParam := root.(*ssa.Parameter); isParam {
-				k, ks := E.arrKey(si.sort)
+				k, ks := E.arrKey(pt.Elem(), tenv)
 				E.regKey(w, k, ks).any = true
 			}
 		}
@@ -277,11 +277,11 @@ func (E *Engine) instrWrites(fn *ssa.Function, in ssa.Instruction, tenv TEnv, w 
 		E.addrWrites(t.Addr, tenv, w)
 	case *ssa.MapUpdate:
 		mt := E.mapType(t.Map.Type(), tenv)
-		ks, vs := E.sortOf(mt.Key(), tenv), E.sortOf(mt.Elem(), tenv)
-		k, s := E.mdomKey(ks)
+		vs := E.sortOf(mt.Elem(), tenv)
+		k, s := E.mdomKey(mt, tenv)
 		E.regKey(w, k, s).bases[t.Map] = true
 		if vs != SUnit {
-			k, s = E.mvalKey(ks, vs)
+			k, s = E.mvalKey(mt, tenv)
 			E.regKey(w, k, s).bases[t.Map] = true
 		}
 	case *ssa.Alloc:
@@ -295,12 +295,12 @@ func (E *Engine) instrWrites(fn *ssa.Function, in ssa.Instruction, tenv TEnv, w 
 	case *ssa.MakeMap:
 		w.key(allocKey).any = true
 		mt := E.mapType(t.Type(), tenv)
-		k, s := E.mdomKey(E.sortOf(mt.Key(), tenv))
+		k, s := E.mdomKey(mt, tenv)
 		E.regKey(w, k, s).bases[t] = true
 	case *ssa.MakeSlice:
 		w.key(allocKey).any = true
 		stp := types.Unalias(E.subst(t.Type(), tenv)).Underlying().(*types.Slice)
-		k, s := E.arrKey(E.sortOf(stp.Elem(), tenv))
+		k, s := E.arrKey(stp.Elem(), tenv)
 		E.regKey(w, k, s).bases[t] = true
 	case *ssa.MakeChan, *ssa.MakeClosure:
 		w.key(allocKey).any = true
@@ -339,18 +339,18 @@ func (E *Engine) callWrites(fn *ssa.Function, cc *ssa.CallCommon, site ssa.Instr
 		case "append":
 			w.key(allocKey).any = true
 			stp := types.Unalias(E.subst(cc.Args[0].Type(), tenv)).Underlying().(*types.Slice)
-			k, s := E.arrKey(E.sortOf(stp.Elem(), tenv))
+			k, s := E.arrKey(stp.Elem(), tenv)
 			kw := E.regKey(w, k, s)
 			kw.bases[cc.Args[0]] = true
 			kw.fresh = true
 		case "copy":
 			if stp, ok := types.Unalias(E.subst(cc.Args[0].Type(), tenv)).Underlying().(*types.Slice); ok {
-				k, s := E.arrKey(E.sortOf(stp.Elem(), tenv))
+				k, s := E.arrKey(stp.Elem(), tenv)
 				E.regKey(w, k, s).bases[cc.Args[0]] = true
 			}
 		case "delete", "clear":
 			if mt, ok := types.Unalias(E.subst(cc.Args[0].Type(), tenv)).Underlying().(*types.Map); ok {
-				k, s := E.mdomKey(E.sortOf(mt.Key(), tenv))
+				k, s := E.mdomKey(mt, tenv)
 				E.regKey(w, k, s).bases[cc.Args[0]] = true
 			} else {
 				w.all = true
